@@ -164,24 +164,19 @@ def run(ctx, R):
     R.count('R17.2', n2, 100)
 
     # ---- R17.3 -------------------------------------------------------------------
-    dep = prog.func('placement.deploy:deploy')
-    loops = [n for n in own_nodes(dep.node) if isinstance(n, ast.For)
-             and isinstance(n.iter, (ast.Tuple, ast.List))]
-    ok = False
-    order = []
-    if len(loops) == 1:
-        order = [src(x) for x in loops[0].iter.elts]
-        ok = bool(order) and order[0] == 'fault_middleware'
+    P = C.pipeline(ctx)
+    dep = P.func
+    FW = 'placement.fault_wrap.FaultWrapper'
+    order = [vs for _n, vs in P.order]
+    ok = P.loop is not None and P.loop_ok and bool(order) and \
+        order[0] == [FW] and P.ret_ok
     R.ob('R17.3', 'deploy:fault-wrapper-innermost', ok,
-         'fault_middleware is the first (innermost) of the wrapped '
-         'middlewares', order, func=dep)
-    fm = [n for n in own_nodes(dep.node) if isinstance(n, ast.Assign)
-          and any(src(t) == 'fault_middleware' for t in n.targets)]
-    R.ob('R17.3', 'deploy:fault-middleware-class', len(fm) == 1 and
-         prog.dotted(dep.module, fm[0].value, dep) ==
-         'placement.fault_wrap.FaultWrapper',
-         'fault_middleware = fault_wrap.FaultWrapper',
-         [src(x.value) for x in fm], func=dep)
+         'FaultWrapper is the first (innermost) of the wrapped middlewares',
+         order, func=dep)
+    R.ob('R17.3', 'deploy:fault-middleware-class',
+         P.position(FW) is not None and P.order[P.position(FW)][1] == [FW],
+         'the innermost middleware is fault_wrap.FaultWrapper and nothing '
+         'else', order[:1], func=dep)
     fw = prog.func('placement.fault_wrap:FaultWrapper.__call__')
     trys = [n for n in own_nodes(fw.node) if isinstance(n, ast.Try)]
     okf = False
